@@ -550,7 +550,7 @@ theorem step_get_fromFile (fs : List Dir) (hc : consistent fs) (s : CSt) (hinv :
   | some o1 =>
     simp only [h1] at h
     cases h
-    exact hinv (m, o1) (lookup_mem_key h1) hsrc
+    exact hinv (m, o) (lookup_mem_key h1) hsrc
   | none =>
     simp only [h1] at h
     rcases loadFrom_spec m (curFiles fs s) s (curFiles_consistent hc s) (hasKey_false_of_lookup h1) with
@@ -615,14 +615,14 @@ theorem step_pathInv (fs : List Dir) (hc : consistent fs) (s : CSt) (op : COp) (
     · rw [h1]
       intro x hx hsrc
       obtain ⟨e', h1', h2'⟩ := hinv x hx hsrc
-      exact ⟨e', by rw [curFiles_congr fs (s := s) rfl]; exact h1', fromFile_congr rfl rfl h2'⟩
+      exact ⟨e', h1', fromFile_congr rfl rfl h2'⟩
     · rw [h1]
       intro x hx hsrc
       have hx' : x ∈ s.dict ++ [(m, { id := s.nextId, mol := m, mode := k, inMem := none, src := none })] := hx
       rw [List.mem_append, List.mem_singleton] at hx'
       rcases hx' with hx' | hx'
       · obtain ⟨e', h1', h2'⟩ := hinv x hx' hsrc
-        exact ⟨e', by rw [curFiles_congr fs (s := s) rfl]; exact h1', fromFile_congr rfl rfl h2'⟩
+        exact ⟨e', h1', fromFile_congr rfl rfl h2'⟩
       · subst hx'; exact absurd rfl hsrc
 
 theorem run_pathInv (fs : List Dir) (hc : consistent fs) (ops : List COp) (s : CSt)
@@ -641,5 +641,23 @@ theorem pathInv_of_clears (fs : List Dir) (s : CSt) (c : COp) (h : c.clears = tr
   | setMem b => intro x hx; simp [step] at hx
   | clear => intro x hx; simp [step] at hx
   | add m k => cases h
+
+/-- a `get` on an empty cache serves the fresh load of the first matching file -/
+theorem step_get_fresh (fs : List Dir) (hc : consistent fs) (s : CSt) (hd : s.dict = []) (m : String) (e : FileEntry)
+    (hfm : firstMatch (curFiles fs s) m = some e) : (step fs s (.get m)).2 = .served (loadObj s e) := by
+  have h1 : lookup s.dict m = none := by rw [hd]; rfl
+  rw [step_get]
+  simp only [h1]
+  rcases loadFrom_spec m (curFiles fs s) s (curFiles_consistent hc s) (hasKey_false_of_lookup h1) with
+    ⟨hnone, _⟩ | ⟨e', hfm', hs⟩
+  · rw [hfm] at hnone; cases hnone
+  · rw [hfm] at hfm'
+    cases hfm'
+    have hs' : loadFrom fs m s = { loadS1 s m e with dict := s.dict ++ [(m, loadObj s e)] } := hs
+    have hl : lookup (loadFrom fs m s).dict m = some (loadObj s e) := by
+      rw [hs']
+      show lookup (s.dict ++ [(m, loadObj s e)]) m = _
+      rw [lookup_append_none _ h1, lookup_single]; simp
+    rw [hl]
 
 end Taurex.CacheSM
